@@ -650,7 +650,7 @@ Section Clauses.
       assert (Hi : inv st g) by (split; [exact Hsup|split; [exact Hcur|exact Hrem]]).
       rewrite <- Hrem. destruct (cs_remaining st) as [rem|] eqn:Er; cbn [fst snd].
       - unfold auth_lines. cbn [filter]. rewrite line_auth_is_auth. unfold has_req. cbn [existsb].
-        rewrite line_auth_not_req, beq_refl. split; [reflexivity|].
+        rewrite line_auth_not_req. unfold sasl_data_ok. rewrite blist_eqb_refl. split; [reflexivity|].
         split; [exact Hsup|split; [exact Hcur|reflexivity]].
       - destruct (ev_args e) as [|a0 r]; [cbn [fst snd]; split; [reflexivity|exact Hi]|].
         destruct (b64_decode a0) as [ch|]; [|cbn [fst snd]; split; [reflexivity|exact Hi]].
